@@ -1,13 +1,16 @@
 /-
-  Dirk.Props.KernelsEq — the three decision kernels, as translated mechanically from /repo's current Go source
+  Dirk.Props.KernelsEq — the decision kernels, as translated mechanically from /repo's current Go source
   by /verif/factx (Dirk/Gen/Kernels.lean, regenerated on every run), are extensionally EQUAL to the hand-written
-  model functions of Dirk/Model/Rules.lean, for all inputs.
+  model functions of Dirk/Model/Rules.lean (§1–3), Dirk/Model/Checker.lean (§4–5) and Dirk/Model/Dkg.lean (§6–7),
+  for all inputs.
 
   A semantic edit of a Go kernel changes the regenerated definition and one of these theorems stops building;
   a Go construct outside the translator's fragment replaces the definition by `kernelUntranslatable_…`, and this
   file does not compile at all.  Core Lean only.
 -/
 import Dirk.Model.Rules
+import Dirk.Model.Checker
+import Dirk.Model.Dkg
 import Dirk.Gen.Kernels
 
 namespace Dirk
@@ -100,5 +103,100 @@ example : onSign ["10.0.0.1"] "10.0.0.1" [4, 0, 0, 0] = .approved ∧
     Gen.onSignGen false ["10.0.0.1"] "10.0.0.2" [4, 0, 0, 0] = .denied ∧
     Gen.onSignGen false ["10.0.0.1"] "" [4, 0, 0, 0] = .denied ∧
     Gen.onSignGen false [] "" [2, 0, 0, 0] = .approved := by decide
+
+/-! ## 4. `regexify` (services/checker/static/parameters.go) ↔ `regexify` -/
+
+theorem regexify_eq_gen (name : String) : regexify name = Gen.regexifyGen name := by
+  unfold regexify Gen.regexifyGen
+  by_cases h : name = "" <;> simp [h, String.isEmpty_iff]
+
+example : Gen.regexifyGen "" = "(?i)^(?:.*)$" ∧ Gen.regexifyGen "a|b" = "(?i)^(?:a|b)$" := by
+  simp [Gen.regexifyGen]
+
+/-! ## 5. `Check` (services/checker/static/service.go) ↔ `check` / `scanPaths` / `scanOps` -/
+
+theorem scanOps_eq_gen (op : String) (ops : List String) : scanOps op ops = Gen.checkOpsGen op ops := by
+  induction ops with
+  | nil => rfl
+  | cons o os ih =>
+    unfold scanOps Gen.checkOpsGen
+    rw [ih]
+    repeat' split
+    all_goals first | rfl | (exfalso; simp_all; done)
+
+theorem scanPaths_eq_gen (w a op : String) (paths : List CPath) :
+    scanPaths w a op paths =
+      Gen.checkLoopGen op (paths.map (fun p => (Re.search p.wallet w && Re.search p.account a, p.ops))) := by
+  induction paths with
+  | nil => rfl
+  | cons p ps ih =>
+    unfold scanPaths
+    simp only [List.map_cons]
+    unfold Gen.checkLoopGen
+    rw [ih, scanOps_eq_gen]
+    rfl
+
+/-- `Check` as the translated guards followed by the translated loops.  The guards' inputs, read off the model's
+    state: `pathOk` / `wallet` = outcome of `walletAndAccount` (Go returns empty names with the error),
+    `known` = the client has an entry in the access map (a missing entry gives Go's nil slice: no paths). -/
+def checkWrap (credsNil : Bool) (acc : Access) (client account op : String) : Bool :=
+  match Gen.checkGuardsGen credsNil client (walletAndAccount account).isSome
+      ((walletAndAccount account).getD ("", "")).1 (acc.lookup client).isSome with
+  | some b => b
+  | none =>
+    Gen.checkLoopGen op (((acc.lookup client).getD []).map (fun p =>
+      (Re.search p.wallet ((walletAndAccount account).getD ("", "")).1 &&
+        Re.search p.account ((walletAndAccount account).getD ("", "")).2, p.ops)))
+
+theorem check_eq_gen (acc : Access) (client account op : String) :
+    check acc client account op = checkWrap false acc client account op := by
+  unfold check checkWrap Gen.checkGuardsGen
+  rw [← scanPaths_eq_gen]
+  cases hwa : walletAndAccount account with
+  | none => by_cases hc : client = "" <;> simp [hc, String.isEmpty_iff]
+  | some wa =>
+    cases hl : acc.lookup client with
+    | none => by_cases hc : client = "" <;> by_cases hw : wa.1 = "" <;> simp [hc, hw, String.isEmpty_iff]
+    | some paths => by_cases hc : client = "" <;> by_cases hw : wa.1 = "" <;> simp [hc, hw, String.isEmpty_iff]
+
+/-- nil credentials (which the model folds into `client = ""`) are refused by the first guard, as an empty
+    client name is -/
+theorem checkWrap_nil (acc : Access) (client account op : String) :
+    checkWrap true acc client account op = false ∧ checkWrap false acc "" account op = false := by
+  unfold checkWrap Gen.checkGuardsGen; simp
+
+example : Gen.checkGuardsGen false "client1" true "wallet" true = none ∧
+    Gen.checkGuardsGen false "client1" true "wallet" false = some false ∧
+    Gen.checkGuardsGen false "client1" true "" true = some false ∧
+    Gen.checkGuardsGen false "client1" false "" true = some false := by
+  simp [Gen.checkGuardsGen]
+
+/-- a path that does not match is skipped whatever it lists; the loops' verdict is the first bearing item of a matching one -/
+example (op : String) (ops : List String) :
+    Gen.checkLoopGen op [(false, ops)] = false ∧ Gen.checkLoopGen op [] = false ∧
+    Gen.checkLoopGen op [(true, [])] = false := by
+  simp [Gen.checkLoopGen, Gen.checkOpsGen]
+
+/-! ## 6. the parameter checks of `OnGenerate` ↔ `Dkg.generateAccepts` -/
+
+theorem generateAccepts_eq_gen (n t : Nat) : Dkg.generateAccepts n t = Gen.generateAcceptsGen n t := by
+  unfold Dkg.generateAccepts Gen.generateAcceptsGen
+  repeat' split
+  all_goals simp
+  all_goals omega
+
+example : Dkg.generateAccepts 4 3 = true ∧ Gen.generateAcceptsGen 4 3 = true ∧ Gen.generateAcceptsGen 4 2 = false ∧
+    Gen.generateAcceptsGen 5 3 = true ∧ Gen.generateAcceptsGen 0 0 = false ∧ Gen.generateAcceptsGen 3 4 = false := by decide
+
+/-! ## 7. the acceptance conditions of `OnContribute` ↔ `Dkg.fixedAccepts` -/
+
+theorem fixedAccepts_eq_gen (valid : Bool) (vlen threshold : Nat) (listed : Bool) :
+    Dkg.fixedAccepts valid vlen threshold listed = Gen.fixedAcceptsGen valid vlen threshold listed := by
+  unfold Dkg.fixedAccepts Gen.fixedAcceptsGen
+  cases valid <;> cases listed <;> grind
+
+example : Dkg.fixedAccepts true 3 3 true = true ∧ Gen.fixedAcceptsGen true 3 3 true = true ∧
+    Gen.fixedAcceptsGen true 4 3 true = false ∧ Gen.fixedAcceptsGen false 3 3 true = false ∧
+    Gen.fixedAcceptsGen true 3 3 false = false := by decide
 
 end Dirk
